@@ -122,7 +122,7 @@ def gen_cases(ctx: ShardCtx, n: int) -> list[dict]:
                 params.setdefault('drift', '10')
         stream = rng.choice(['bbb', 'bbb', 'tears'])
         cases.append({'route': route, 'stream': stream, 'manifest': manifest, 'mode': mode, 'params': params,
-                      'now': now.isoformat(), 'loc': loc})
+                      'now': now.isoformat(), 'loc': loc, 'mps': rng.choice(['c05mps', 'c05frac'])})
     return cases
 
 
@@ -137,7 +137,7 @@ class Renderer:
         if extra:
             p.update(extra)
         if case['route'] == 'mps':
-            return f"/mps/{case['mode']}/c05mps/{case['manifest']}" + qs(p)
+            return f"/mps/{case['mode']}/{case.get('mps', 'c05mps')}/{case['manifest']}" + qs(p)
         return f"/dash/{case['mode']}/{case['stream']}/{case['manifest']}" + qs(p)
 
     def render(self, case: dict, extra: dict | None = None, host: str | None = None):
@@ -187,6 +187,12 @@ def run_shard(ctx: ShardCtx) -> ShardResult:
              'tracks': [('video', 1, 'main'), ('audio', 2, 'main'), ('text', 4, 'main')]},
             {'pid': 'p2', 'stream': 'tears', 'start': 8, 'duration': 44,
              'tracks': [('video', 1, 'main'), ('audio', 2, 'main')]}], title='Multi period')
+        # periods whose durations are not whole seconds (loop arithmetic in floating point)
+        add_mps_db(env, 'c05frac', [
+            {'pid': 'p1', 'stream': 'bbb', 'start': 4, 'duration': 16.2,
+             'tracks': [('video', 1, 'main'), ('audio', 2, 'main')]},
+            {'pid': 'p2', 'stream': 'tears', 'start': 8, 'duration': 14.2,
+             'tracks': [('video', 1, 'main'), ('audio', 2, 'main')]}], title='Fractional periods')
         reach = Reach([
             ('dashlive.server.template_tags', 'xmlSafe'),
             ('dashlive.server.requesthandler.template_context', 'create_template_context'),
